@@ -85,8 +85,21 @@ def draw_doc(vc, name, keys=()):
 
 
 def draw_keys(vc, n, prefix='k'):
-    """n field names: arbitrary strings (possibly equal to each other)."""
+    """n field names: arbitrary strings (possibly equal to each other) -- or, as a second case, concrete distinct names
+    (so that an implementation which puts the names into native dicts/sets is still decided, not merely `undecided`)."""
+    if n and vc.nondet(2, f'{prefix}: arbitrary names | concrete names') == 1:
+        return tuple(f'{prefix}{c}' for c in 'abc'[:n])
     return tuple(vc.str(f'{prefix}{i}') for i in range(n))
+
+
+def outcome_of(fn, *a, **kw):
+    """('return', result) or (<exception class name>, exception); engine signals pass through."""
+    try:
+        return 'return', fn(*a, **kw)
+    except Unsupported:
+        raise
+    except Exception as e:
+        return type(e).__name__, e
 
 
 # =========================================================================== X5: dicts.resolve / parse_field
@@ -130,10 +143,8 @@ def X5(vc):
                  ((), ()), ([], ()), ([k[0], k[1]], (k[0], k[1])), ((k[0],), (k[0],)), (('a', 'b', 'c'), ('a', 'b', 'c')),
                  (42, ValueError), ({'a': 1}, ValueError), (b'a.b', ValueError)]
         arg, want = cases[vc.nondet(len(cases), 'field spec')]
-        try:
-            got = ld.fn(arg)
-        except ValueError:
-            got = ValueError
+        outcome, got = outcome_of(ld.fn, arg)
+        got = got if outcome == 'return' else type(got)
         vc.ensure('parse_field', got is want if want is ValueError else
                   (type(got) is tuple and len(got) == len(want) and all(a is b or a == b for a, b in zip(got, want))))
         return ('parse_field', repr(arg) if not isinstance(arg, (list, tuple)) else len(arg))
@@ -146,16 +157,10 @@ def X5(vc):
     as_list = vc.nondet(2, 'path as tuple | list')
     field = list(keys) if as_list else keys
     ld = vc.load(DICTS, 'resolve')
-    try:
-        if with_default == 0:
-            res = ld.fn(d, field)
-        else:
-            res = ld.fn(d, field, sentinel if with_default == 1 else None)
-        outcome = 'return'
-    except KeyError:
-        outcome, res = 'KeyError', None
-    except TypeError:
-        outcome, res = 'TypeError', None
+    if with_default == 0:
+        outcome, res = outcome_of(ld.fn, d, field)
+    else:
+        outcome, res = outcome_of(ld.fn, d, field, sentinel if with_default == 1 else None)
     found, missing, nonmap, value = spec_resolve(before, keys)
     default = sentinel if with_default == 1 else None
     is_value = outcome == 'return' and res is not sentinel
@@ -227,13 +232,7 @@ def X6(vc):
     before = jt(d)
     as_list = vc.nondet(2, 'path as tuple | list')
     ld = vc.load(DICTS, 'ensure')
-    try:
-        r = ld.fn(d, list(keys) if as_list else keys, value)
-        outcome = 'return'
-    except ValueError:
-        outcome = 'ValueError'
-    except TypeError:
-        outcome = 'TypeError'
+    outcome, _ = outcome_of(ld.fn, d, list(keys) if as_list else keys, value)
     after = jt(d)
     vc.canary('canary.never_raises', outcome == 'return')
     vc.canary('canary.unchanged', holds(vc, after == before))
@@ -288,13 +287,7 @@ def X7(vc):
     before = jt(d)
     as_list = vc.nondet(2, 'path as tuple | list')
     ld = vc.load(DICTS, 'remove')
-    try:
-        ld.fn(d, list(keys) if as_list else keys)
-        outcome = 'return'
-    except ValueError:
-        outcome = 'ValueError'
-    except TypeError:
-        outcome = 'TypeError'
+    outcome, _ = outcome_of(ld.fn, d, list(keys) if as_list else keys)
     after = jt(d)
     vc.canary('canary.never_raises', outcome == 'return')
     vc.canary('canary.unchanged', holds(vc, after == before))
@@ -320,3 +313,257 @@ def X7(vc):
         vc.canary('canary.no_parent_removed', True)
     vc.ensure('non_mapping_parent', Implies(Not(okv), And(outcome == 'TypeError', holds(vc, after == before))))
     return ('remove', n, outcome)
+
+
+# =========================================================================== G6: State.from_storage / store / purge
+PROG = 'kopf._core.actions.progression'
+
+
+class StubStorage:
+    """progress.ProgressStorage by contract, as seen by progression.State: every call is recorded on the ghost trace;
+    fetch(key=, body=) returns what `records` holds for the key (None: no record)."""
+    def __init__(self, vc, records=None):
+        self.vc, self.records = vc, records or {}
+
+    def fetch(self, *, key, body):
+        self.vc.emit('fetch', key, body)
+        return self.records.get(key)
+
+    def store(self, *, key, record, body, patch): self.vc.emit('store', key, record, body, patch)
+    def purge(self, *, key, body, patch): self.vc.emit('purge', key, body, patch)
+    def touch(self, *, body, patch, value): self.vc.emit('touch', body, patch, value)
+    def clear(self, *, essence): self.vc.emit('clear', essence); return essence
+    def flush(self): self.vc.emit('flush')
+
+
+def _subsets(items):
+    return [c for r in range(len(items) + 1) for c in itertools.combinations(items, r)]
+
+
+@harness('G6', targets=[f'{PROG}.State.from_storage', f'{PROG}.State.store', f'{PROG}.State.purge'],
+         props=['C02', 'C16', 'C14'],
+         clauses=['reads_exactly_owned_ids', 'state_iff_record', 'restart_independent',
+                  'stores_exactly_changed', 'stores_full_record', 'flushes_last', 'no_other_storage_calls',
+                  'purges_exactly_owned_states_subrefs'],
+         canaries=['canary.loads_everything', 'canary.stores_everything', 'canary.stores_nothing', 'canary.purges_only_owned'],
+         trusted=['progress.ProgressStorage by contract (fetch/store/purge/flush: E6..E9 for the provided classes; user-made '
+                  'storages: ASSUMED)', 'progression.HandlerState.from_storage/for_storage/as_in_storage by contract G1/G5',
+                  'dict/set comprehension and dict != semantics of CPython on real containers of 0..3 entries'],
+         assumes=['G6 is proved for 0..3 owned handlers (incl. two handlers sharing one id, as @on.resume + @on.create on one function do), '
+                  '0..3 handler states, subrefs of 0..2 ids overlapping with state/handler ids; element-wise loops: n entries by structure'])
+def G6(vc):
+    """
+    progression.State against an arbitrary storage (contract stub) and handler states (contract stubs):
+     from_storage(body=, storage=, handlers=):
+      reads_exactly_owned_ids   storage.fetch is called for exactly the ids of the given (owned) handlers, once per id, with this
+                                body; nothing is stored/purged/touched/flushed;
+      state_iff_record          an id is in the state iff its fetch returned a record (`{}` is a record; None is not), and its
+                                entry is HandlerState.from_storage(<that record>, basetime=<the one basetime of this state>);
+      restart_independent       nothing else enters the result: every entry comes from a record fetched in this call, the basetime
+                                from one _get_basetime() call, purpose None -- no process memory (restarts see the same state).
+     store(body, patch, storage):
+      stores_exactly_changed    storage.store is called for exactly the handlers whose as_in_storage() differs from what was loaded
+                                (_origin; None for handlers started in this cycle), once each;
+      stores_full_record        ... with key=id, record=for_storage() of that state, this body and this patch;
+      flushes_last              storage.flush() is called exactly once, after every store (also when nothing is stored).
+     purge(body=, patch=, storage=, handlers=):
+      purges_exactly_owned_states_subrefs   the set of purged keys == owned handler ids | state ids | all subrefs of all states,
+                                each with this body and patch; flush once, last; nothing else.
+      no_other_storage_calls    store never fetches/purges/touches; purge never stores/fetches/touches.
+    """
+    from kopf._core.actions import progression
+    body, patch = Opaque('body'), Opaque('patch')
+    scenario = ['from_storage', 'store', 'purge'][vc.nondet(3, 'scenario')]
+    made = []
+
+    class StubHS:
+        """HandlerState by contract (G1/G5)."""
+        def __init__(self, tag, **kw):
+            self.tag = tag
+            self.__dict__.update(kw)
+
+        def __repr__(self): return f'<hs {self.tag}>'
+
+        @classmethod
+        def from_storage(cls, record, *, basetime):
+            made.append((record, basetime))
+            return cls(f'loaded#{len(made)}', record=record, basetime=basetime, made_no=len(made) - 1)
+
+        def for_storage(self): vc.emit('for_storage', self); return self.full_record
+        def as_in_storage(self): vc.emit('as_in_storage', self); return self.pure_record
+    basetimes = []
+
+    def _get_basetime():
+        basetimes.append(Opaque(f'basetime#{len(basetimes)}'))
+        return basetimes[-1]
+    ld = {n: vc.load(PROG, f'State.{n}', stubs={'HandlerState': StubHS, '_get_basetime': _get_basetime})
+          for n in ('from_storage', 'store', 'purge')}
+
+    class St(progression.State):
+        pass
+
+    if scenario == 'from_storage':
+        id_lists = [(), ('h1',), ('h1', 'h2'), ('h1', 'h1'), ('h2', 'h1/sub', 'h1'), ('h1', 'h2', 'h1')]
+        ids = id_lists[vc.nondet(len(id_lists), 'owned handler ids')]
+        handlers = [Opaque(f'handler-{i}#{n}', id=i) for n, i in enumerate(ids)]
+        # the object may carry records of ids that are not owned (another operator / unrelated handlers): never looked at
+        universe = sorted(set(ids)) + ['foreign']
+        kinds = {i: vc.nondet(3, f'record of {i}: none | empty mapping | a record') for i in universe}
+        records = {i: [None, {}, {'started': 'then', 'retries': 1}][k] for i, k in kinds.items()}
+        storage = StubStorage(vc, {i: r for i, r in records.items()})
+        as_iter = vc.nondet(2, 'handlers: list | one-shot iterator')
+        st = ld['from_storage'].fn(St, body=body, storage=storage, handlers=iter(handlers) if as_iter else handlers)
+        tr = vc.trace
+        fetched = [ev[1] for ev in tr if ev[0] == 'fetch']
+        vc.ensure('reads_exactly_owned_ids', sorted(fetched) == sorted(set(ids)) and all(ev[0] == 'fetch' and ev[2] is body for ev in tr))
+        want = [i for i in set(ids) if records[i] is not None]
+        vc.ensure('state_iff_record', isinstance(st, St) and sorted(st) == sorted(want))
+        for i in st:
+            e = st[i]
+            vc.ensure('state_iff_record', isinstance(e, StubHS) and e.record is records[i] and e.basetime is st.basetime)
+        vc.ensure('restart_independent', len(basetimes) == 1 and st.basetime is basetimes[0] and st.purpose is None
+                  and len(made) == len(want) and all(any(r is records[i] for i in want) for r, _ in made))
+        vc.canary('canary.loads_everything', len(list(st)) == len(set(ids)))
+        return ('from_storage', ids, sorted(st))
+
+    # ---- a state of 0..3 handler entries
+    storage = StubStorage(vc)
+    n = vc.nondet(4, 'entries')
+    sids = ['h1', 'h2', 'h1/sub'][:n]
+    if scenario == 'store':
+        entries = {}
+        changed = {}
+        for i in sids:
+            r1 = vc.int(f'{i}.retries')
+            kind = vc.nondet(5, f'{i}: origin = none | same | other value | extra key | fewer keys')
+            pure = {'started': 'then', 'retries': r1}
+            if kind == 0:
+                origin, differs = None, True
+            elif kind == 1:
+                origin, differs = {'started': 'then', 'retries': r1}, False
+            elif kind == 2:
+                r0 = vc.int(f'{i}.origin.retries')
+                origin, differs = {'started': 'then', 'retries': r0}, r0 != r1
+            elif kind == 3:
+                origin, differs = {'started': 'then', 'retries': r1, 'message': 'old'}, True
+            else:
+                origin, differs = {'started': 'then'}, True
+            entries[i] = StubHS(i, full_record=Opaque(f'full-record-{i}'), pure_record=pure, _origin=origin)
+            changed[i] = differs
+        st = St(entries, basetime=Opaque('basetime'), purpose='update')
+        ld['store'].fn(st, body, patch, storage)
+        tr = vc.trace
+        calls = [ev for ev in tr if ev[0] not in ('for_storage', 'as_in_storage')]
+        stores = [ev for ev in calls if ev[0] == 'store']
+        stored_ids = [ev[1] for ev in stores]
+        vc.ensure('stores_exactly_changed', len(stored_ids) == len(set(stored_ids)) and all(i in entries for i in stored_ids))
+        for i in sids:
+            vc.ensure('stores_exactly_changed', Iff(i in stored_ids, changed[i]))
+        for ev in stores:
+            vc.ensure('stores_full_record', ev[2] is entries[ev[1]].full_record and ev[3] is body and ev[4] is patch)
+        vc.ensure('flushes_last', [ev[0] for ev in calls].count('flush') == 1 and calls[-1][0] == 'flush')
+        vc.ensure('no_other_storage_calls', all(ev[0] in ('store', 'flush') for ev in calls))
+        vc.canary('canary.stores_everything', len(stores) == n)
+        vc.canary('canary.stores_nothing', len(stores) == 0)
+        return ('store', n, stored_ids)
+
+    # ---- purge
+    sub_options = [(), ('h1/sub',), ['h1/sub', 'h2/x'], ('h2',), ('zz/deep/er', 'h1/sub')]
+    entries = {i: StubHS(i, subrefs=sub_options[vc.nondet(len(sub_options), f'{i}.subrefs')]) for i in sids}
+    owned_lists = [(), ('h1',), ('h9',), ('h1', 'h9'), ('h1', 'h1'), ('h1/sub', 'h2')]
+    owned = owned_lists[vc.nondet(len(owned_lists), 'owned handler ids')]
+    handlers = [Opaque(f'handler-{i}#{k}', id=i) for k, i in enumerate(owned)]
+    st = St(entries, basetime=Opaque('basetime'), purpose='update')
+    as_iter = vc.nondet(2, 'handlers: list | one-shot iterator')
+    ld['purge'].fn(st, body=body, patch=patch, storage=storage, handlers=iter(handlers) if as_iter else handlers)
+    tr = vc.trace
+    purges = [ev for ev in tr if ev[0] == 'purge']
+    want = set(owned) | set(sids) | {s for e in entries.values() for s in e.subrefs}
+    vc.ensure('purges_exactly_owned_states_subrefs', {ev[1] for ev in purges} == want)
+    vc.ensure('purges_exactly_owned_states_subrefs', all(ev[2] is body and ev[3] is patch for ev in purges))
+    vc.ensure('flushes_last', [ev[0] for ev in tr].count('flush') == 1 and tr[-1][0] == 'flush')
+    vc.ensure('no_other_storage_calls', all(ev[0] in ('purge', 'flush') for ev in tr))
+    vc.canary('canary.purges_only_owned', {ev[1] for ev in purges} == set(owned))
+    return ('purge', n, owned, sorted(want))
+
+
+# =========================================================================== G7: State.extras / counts / without_successes
+def _count(conds):
+    total = 0
+    for c in conds:
+        total = total + If(c, 1, 0)
+    return total
+
+
+@harness('G7', targets=[f'{PROG}.State.extras', f'{PROG}.State.counts', f'{PROG}.State.without_successes'],
+         props=['C02', 'C14', 'C17'],
+         clauses=['extras_keys', 'extras_counts', 'counts_exact', 'without_successes_exact', 'immutable'],
+         canaries=['canary.no_extras', 'canary.counts_everything', 'canary.keeps_all'],
+         trusted=['progression.HandlerState by contract G1: purpose (None or a name), success, failure, finished <=> success or failure',
+                  'dict/set/list comprehension semantics of CPython on real containers of 0..3 entries'],
+         assumes=['G7 is proved for 0..3 handler states with purposes over {None, create, update, resume} (plain strings as loaded from '
+                  'storage, the state purpose also as the causes.Reason member), arbitrary success/failure flags'])
+def G7(vc):
+    """
+    progression.State over 0..3 arbitrary handler states and an arbitrary current purpose:
+      extras_keys     extras has a key p  <=>  some handler state carries the purpose p, p is not None and p != the state's purpose;
+      extras_counts   extras[p] == (number of states with purpose p and success, ... and failure, ... and not finished);
+      counts_exact    counts == the same three numbers over the states that belong to the current purpose: all of them if the
+                      state has no purpose, else those whose purpose is None (catch-all) or equal to it;
+      without_successes_exact   the result holds exactly the entries that are NOT successful (the same objects; failures and
+                      unfinished ones stay: only they are remembered by the indexing, C17), same basetime;
+      immutable       the receiver is not modified.
+    """
+    from kopf._core.actions import progression
+    from kopf._core.intents import causes
+    ld = {n: vc.load(PROG, f'State.{n}') for n in ('extras', 'counts', 'without_successes')}
+
+    class St(progression.State):
+        pass
+    n = vc.nondet(4, 'entries')
+    names = [None, 'create', 'update', 'resume']
+    entries = {}
+    for i in range(n):
+        success, failure = vc.bool(f'h{i}.success'), vc.bool(f'h{i}.failure')
+        entries[f'h{i}'] = Opaque(f'hs-h{i}', purpose=vc.fin(f'h{i}.purpose', names), success=success, failure=failure,
+                                  finished=Or(success, failure))
+    which = vc.nondet(3, 'extras | counts | without_successes')
+    own = resolve(vc.fin('state.purpose', [None, 'create', causes.Reason.UPDATE]))
+    basetime = Opaque('basetime')
+    st = St(entries, basetime=basetime, purpose=own)
+    es = list(entries.values())
+    if which == 0:
+        extras = ld['extras'].fn(st)
+        vc.ensure('extras_keys', isinstance(extras, dict))
+        for p in names[1:]:
+            carried = Or(False, *[Eq(e.purpose, p) for e in es])
+            vc.ensure('extras_keys', Iff(p in extras, And(carried, p != own)))
+            if p in extras:
+                c = extras[p]
+                vc.ensure('extras_counts', And(Eq(c.success, _count([And(Eq(e.purpose, p), e.success) for e in es])),
+                                               Eq(c.failure, _count([And(Eq(e.purpose, p), e.failure) for e in es])),
+                                               Eq(c.running, _count([And(Eq(e.purpose, p), Not(e.finished)) for e in es]))))
+        vc.ensure('extras_keys', all(k in names[1:] for k in extras))
+        vc.canary('canary.no_extras', len(extras) == 0)
+        summary = ('extras', n, sorted(extras))
+    elif which == 1:
+        c = ld['counts'].fn(st)
+        mine = [True if own is None else Or(e.purpose is None if not isinstance(e.purpose, SV) else e.purpose.is_(None), Eq(e.purpose, own))
+                for e in es]
+        vc.ensure('counts_exact', And(Eq(c.success, _count([And(m, e.success) for m, e in zip(mine, es)])),
+                                      Eq(c.failure, _count([And(m, e.failure) for m, e in zip(mine, es)])),
+                                      Eq(c.running, _count([And(m, Not(e.finished)) for m, e in zip(mine, es)]))))
+        vc.canary('canary.counts_everything', Eq(c.success + c.failure + c.running, n))
+        summary = ('counts', n, c.success, c.failure, c.running)
+    else:
+        st2 = ld['without_successes'].fn(st)
+        vc.ensure('without_successes_exact', isinstance(st2, St) and st2 is not st and st2.basetime is basetime)
+        for i, e in entries.items():
+            vc.ensure('without_successes_exact', Iff(i in st2, Not(e.success)))
+            if i in st2:
+                vc.ensure('without_successes_exact', st2[i] is e)
+        vc.ensure('without_successes_exact', all(i in entries for i in st2))
+        vc.canary('canary.keeps_all', len(st2) == n)
+        summary = ('without_successes', n, sorted(st2))
+    vc.ensure('immutable', list(st._states.items()) == list(entries.items()) and st.purpose is own and st.basetime is basetime)
+    return summary
